@@ -78,6 +78,40 @@ def check_canon_reads(chk, prog):
               "add_term may return an id that was not canonicalised after the flush", f.loc)
 
 
+def check_merge_fixpoint(chk, prog):
+    R = chk.rule("R-MERGE-FIXPOINT", "Database::merge_all returns only after the notification list was found empty: merge_simple's loop exits only when notification_list.reset() "
+                 "returned nothing, and merge_all's loop exits only through merge_simple (merging one table can stage writes into another)")
+    from .rebuild_common import natural_loops, loop_exits
+    from ..util import edge_relation
+    ms = prog.need("egglog_core_relations::free_join::Database::merge_simple")
+    ok = False
+    for h, body in natural_loops(ms):
+        if not any(c.bb in body and c.p.endswith("NotificationList::reset") for c in ms.calls):
+            continue
+        exits = loop_exits(ms, body)
+        good = bool(exits)
+        for (u, v) in exits:
+            r = edge_relation(ms, u, v)
+            # exit when `to_merge.is_empty()` is true
+            if not (r and r.get("truth") is True and r["desc"][0] == "call" and r["desc"][1].p.endswith("::is_empty")):
+                good = False
+        ok = ok or good
+    chk.judge(ok, R, "Database::merge_simple", "loops until notification_list.reset() returns an empty batch",
+              "merge_simple can return while tables notified during the merge are still pending", ms.loc)
+    ma = prog.need("egglog_core_relations::free_join::Database::merge_all")
+    ok2 = False
+    for h, body in natural_loops(ma):
+        if not any(c.bb in body and c.p.endswith("NotificationList::reset") for c in ma.calls):
+            continue
+        exits = loop_exits(ma, body)
+        simple = {c.bb for c in ma.calls if c.p.endswith("Database::merge_simple")}
+        # every way out of the loop goes through merge_simple (inside the loop, or right after the `break`)
+        ok2 = bool(exits) and bool(simple) and all(
+            any(ma.dominates(sb, u) for sb in simple if sb in body) or rc.RebuildModel._path_to_ret(ma, [v], simple, set()) is None for (u, v) in exits)
+    chk.judge(ok2, R, "Database::merge_all", "the merge loop is only left after merge_simple drained the notification list",
+              "merge_all can leave its loop without draining the notification list through merge_simple", ma.loc)
+
+
 def run(chk, prog, tier):
     chk.explanation = EXPLANATION
     chk.assumptions = [
@@ -89,3 +123,4 @@ def run(chk, prog, tier):
     check_rebuild(chk, prog, model)
     check_who_merges(chk, prog, model)
     check_canon_reads(chk, prog)
+    check_merge_fixpoint(chk, prog)
